@@ -260,6 +260,18 @@ Definition P_C11_block (prev : snapshot) (b : blk) : bool :=
   && nodup_ids (bonded_views sn ++ sn_frozen sn)
   && stake_continuity prev b.
 Definition P_C11 (c : acase) : bool := forall_blocks c P_C11_block.
+(* every staking transaction the block accepted is a recorded stake after the block — bonded, or
+   unbonding if the same block released it again (nothing can refund or forfeit it inside the block
+   that created it: slashing runs in BeginBlock, the refund scan reads the committed ledger) — with
+   its sender, its delegatee and the power it paid for *)
+Definition new_stakes_recorded (b : blk) : bool :=
+  let now := bonded_views (k_snap b) ++ sn_frozen (k_snap b) in
+  forallb (λ x : tx * res Z,
+             if succeeded x && (t_type x.1 =? TRX_STAKING)
+             then existsb (λ s, (sv_hash s =? t_hash x.1)%N && (sv_from s =? t_from x.1)%N && (sv_to s =? t_to x.1)%N
+                                && (sv_power s * amountPerPower =? t_amount x.1)) now
+             else true) (k_txs b).
+Definition P_C11_full (c : acase) : bool := P_C11 c && forall_blocks c (λ _ b, new_stakes_recorded b).
 
 (* ------------------------------------------------------------------ C12: unbonding *)
 (* a stake that was bonded before and is not bonded after the block: either an unstaking
